@@ -11,7 +11,8 @@ func zzRawDate(prefix string) (klog.Date, int) {
 	y := zz.IntRange(prefix+"y", 2019, 2021)
 	m := zz.IntRange(prefix+"m", 1, 12)
 	d := zz.IntRange(prefix+"d", 1, 28)
-	return klog.ZZRawDate(y, m, d), y*10000 + m*100 + d
+	// either notation: a record keeps the separator its date was written with
+	return klog.ZZRawDateFmt(y, m, d, zz.Choose(2) == 0), y*10000 + m*100 + d
 }
 
 var zzTagX = klog.NewTagOrPanic("x", "")
@@ -20,10 +21,10 @@ var zzTagXV = klog.NewTagOrPanic("x", "v")
 
 type zzRecSpec struct {
 	rec     klog.Record
-	key     int    // yyyymmdd
-	recTags int    // bit 0: #x in record summary, bit 1: #y
-	entTags []int  // per entry: bit 0 #x, bit 1 #y, bit 2 #x=v
-	kinds   []int  // per entry: 0 positive duration, 1 negative duration, 2 range, 3 open range, 4 zero duration
+	key     int   // yyyymmdd
+	recTags int   // bit 0: #x in record summary, bit 1: #y
+	entTags []int // per entry: bit 0 #x, bit 1 #y, bit 2 #x=v
+	kinds   []int // per entry: 0 positive duration, 1 negative duration, 2 range, 3 open range, 4 zero duration
 	mins    []int
 }
 
